@@ -30,7 +30,7 @@ $(B)/lock_r$(1)/repo_%.o: $(REPO)/src/lock/%.cpp $(H)/vsched_prelude.hpp $(H)/vs
 	$(CXX) $(COMMON) $(PRELUDE) $(REPODEF) -DDBGROUP_MAX_THREAD_NUM=8 -DCPP_UTILITY_SPINLOCK_RETRY_NUM=$(1) -I$(REPO)/include -c $$< -o $$@
 $(B)/lock_r$(1)/interp_lock.o: $(H)/interp_lock.cpp
 	@mkdir -p $$(dir $$@)
-	$(CXX) $(COMMON) $(PRELUDE) $(REPODEF) -DDBGROUP_MAX_THREAD_NUM=8 -DCPP_UTILITY_SPINLOCK_RETRY_NUM=$(1) -I$(REPO)/include -c $$< -o $$@
+	$(CXX) $(COMMON) -fno-access-control $(PRELUDE) $(REPODEF) -DDBGROUP_MAX_THREAD_NUM=8 -DCPP_UTILITY_SPINLOCK_RETRY_NUM=$(1) -I$(REPO)/include -c $$< -o $$@
 $(B)/lock_r$(1)/lock_harness: $(B)/lock_r$(1)/interp_lock.o $(foreach s,$(LOCK_SRCS),$(B)/lock_r$(1)/repo_$(s).o) $(B)/common/vsched_rt.o $(B)/common/gen_lock.o $(B)/common/lock_main.o
 	$(CXX) $(STD) $(SAN) -pthread $$^ -lrapidcheck -o $$@
 endef
@@ -44,7 +44,7 @@ $(B)/lock_fuzz/repo_%.o: $(REPO)/src/lock/%.cpp $(H)/vsched_prelude.hpp $(H)/vsc
 	clang++ $(LFUZZ) $(PRELUDE) $(REPODEF) -DDBGROUP_MAX_THREAD_NUM=8 -DCPP_UTILITY_SPINLOCK_RETRY_NUM=1 -I$(REPO)/include -c $< -o $@
 $(B)/lock_fuzz/interp_lock.o: $(H)/interp_lock.cpp
 	@mkdir -p $(dir $@)
-	clang++ $(LFUZZ) $(PRELUDE) $(REPODEF) -DDBGROUP_MAX_THREAD_NUM=8 -DCPP_UTILITY_SPINLOCK_RETRY_NUM=1 -I$(REPO)/include -c $< -o $@
+	clang++ $(LFUZZ) -fno-access-control $(PRELUDE) $(REPODEF) -DDBGROUP_MAX_THREAD_NUM=8 -DCPP_UTILITY_SPINLOCK_RETRY_NUM=1 -I$(REPO)/include -c $< -o $@
 $(B)/lock_fuzz/%.o: $(H)/%.cpp
 	@mkdir -p $(dir $@)
 	clang++ $(LFUZZ) -c $< -o $@
